@@ -238,3 +238,32 @@ def gen_case(r, big=False, natural=False, errs=False):
 
 def line_of(prefix, ops):
     return " ".join(list(prefix) + list(ops))
+
+
+def enum_cases(depth, nstart, maxrt, est0, max_sub=3):
+    """Exhaustive small scope: every history of exactly `depth` events over the alphabet
+    {S con, S non, and for every message id submitted so far: A R T P, plus one unknown id for A R,
+     U, F1, F4} on one session; ids are 1,2,3.. in submission order, tokens 10000+id.
+    Yields (prefix, ops)."""
+    prefix = ["ns", "1", "1", "%d,%d,%d,1" % (nstart, maxrt, 1 if est0 else 0)]
+
+    def rec(ops, nsub, left):
+        if left == 0:
+            yield list(ops)
+            return
+        alpha = []
+        if nsub < max_sub:
+            alpha += ["S0,c,%d,%d" % (nsub + 1, 10001 + nsub), "S0,n,%d,%d" % (nsub + 1, 10001 + nsub)]
+        for m in range(1, nsub + 1):
+            alpha += ["A0,%d" % m, "R0,%d" % m, "T0,%d" % m, "P0,%d" % (10000 + m)]
+        alpha += ["U0", "F0,1", "F0,4"]
+        for a in alpha:
+            # nothing but refused submissions can follow a disconnect: prune
+            if ops and ops[-1] == "F0,1" and a[0] != "S":
+                continue
+            ops.append(a)
+            yield from rec(ops, nsub + (1 if a[0] == "S" else 0), left - 1)
+            ops.pop()
+
+    for ops in rec([], 0, depth):
+        yield prefix, ops
